@@ -6,5 +6,5 @@ CONSTANTS
   MaxOps = 5
   Deviations = {}
 VIEW view
-INVARIANTS InterestExact NoViolation
+INVARIANTS InterestExact NoViolation TokenOfWaiter
 CHECK_DEADLOCK FALSE
